@@ -112,7 +112,8 @@ func probeSrc(v Variant, probes string) string {
 	if err != nil {
 		die(err)
 	}
-	return string(src)
+	// + the enumerated key-shape types (shapes.go)
+	return string(src) + shapeSchema()
 }
 
 func buildConfig(v Variant, probes string) ConfigJ {
